@@ -48,7 +48,29 @@ def run(replay=None):
         progs.append(p)
     for k in range(nrender):
         r = ck.rng.random()
-        if r < 0.6:
+        terrain = False
+        if r < 0.2:
+            # a large block that interval arithmetic proves filled (a slab) below small features that raise
+            # only some pixels of its footprint: fill() must keep the higher pixels
+            p = exprlib.Prog(f"r{k}")
+            for c in ("x", "y", "z"):
+                p.emit(c, "axis")
+            cz = ck.rng.choice([0.01, -0.2, 0.13, ck.rng.uniform(-0.5, 0.3)])
+            cur = p.emit(f"bin OP_SUB 2 {p.emit('const ' + f2h(cz), 'const')}", "tree")
+            for _ in range(ck.rng.randint(1, 3)):
+                cx_, cy_ = ck.rng.uniform(-0.8, 0.8), ck.rng.uniform(-0.8, 0.8)
+                rad = ck.rng.uniform(0.1, 0.35)
+                czb = cz + ck.rng.uniform(0.0, 0.5)
+                dx = p.emit(f"bin OP_SUB 0 {p.emit('const ' + f2h(cx_), 'const')}", "tree")
+                dy = p.emit(f"bin OP_SUB 1 {p.emit('const ' + f2h(cy_), 'const')}", "tree")
+                dz = p.emit(f"bin OP_SUB 2 {p.emit('const ' + f2h(czb), 'const')}", "tree")
+                s2 = p.emit(f"bin OP_ADD {p.emit(f'un OP_SQUARE {dx}', 'tree')} {p.emit(f'un OP_SQUARE {dy}', 'tree')}", "tree")
+                s3 = p.emit(f"bin OP_ADD {s2} {p.emit(f'un OP_SQUARE {dz}', 'tree')}", "tree")
+                ball = p.emit(f"bin OP_SUB {p.emit(f'un OP_SQRT {s3}', 'tree')} {p.emit('const ' + f2h(rad), 'const')}", "tree")
+                cur = p.emit(f"bin OP_MIN {cur} {ball}", "tree")
+            p.root = cur
+            terrain = True
+        elif r < 0.6:
             p = gen_csg(ck.rng, f"r{k}", ck.rng.randint(1, 5))
         elif r < 0.8:
             p = exprlib.gen_program(ck.rng, f"r{k}", ck.rng.randint(5, 25), safe=True, var_p=0.0, apply_p=0.0)
@@ -60,6 +82,11 @@ def run(replay=None):
         if two_d:
             lo[2] = hi[2] = ck.rng.choice([0.0, 0.3])
         res = ck.rng.choice([3.0, 5.0, 7.0, 8.5, 11.0, 16.0] if quick else [3.0, 7.0, 11.0, 16.0, 23.0, 32.0])
+        if terrain:
+            two_d = False
+            lo = [-1.0, -1.0, -1.0] if ck.rng.random() < 0.5 else [ck.rng.uniform(-1.5, -0.8) for _ in range(3)]
+            hi = [1.0, 1.0, 1.0] if lo == [-1.0, -1.0, -1.0] else [ck.rng.uniform(0.8, 1.5) for _ in range(3)]
+            res = ck.rng.choice([11.0, 16.0, 16.0, 13.5])
         p.q = p.ncmd + 1
         p.emit(f"hmap {p.root} " + " ".join(f2h(v) for v in lo + hi) + " " + f2h(res))
         p.kind = "render"
